@@ -1306,12 +1306,12 @@ func (e *Exec) stepLive(ws []string) string {
 		for {
 			need, copying := e.pending()
 			if len(need) == 0 && len(copying) == 0 {
-				return e.Dump()
+				return e.liveDump()
 			}
 			if time.Now().After(deadline) {
 				e.LastDump = stackDump(6000)
 				e.broken = "stalled"
-				return "timeout " + e.Dump()
+				return "timeout " + e.liveDump()
 			}
 			time.Sleep(2 * time.Millisecond)
 		}
@@ -1429,3 +1429,26 @@ func (v View) String() string {
 }
 
 func (e *Exec) Dump() string { return e.Observe().String() }
+
+// pendingRows drops the rows of blobs the destination already holds. While the real loop runs
+// concurrently with uploads, a re-upload of a blob whose copy is just completing (between
+// queue.Delete and the removal from needCopy) legitimately leaves such a stale row: enqueue writes the
+// row (again), finds the blob still pending in memory, and the completing copy then drops the pending
+// entry. The row is harmless (the blob is delivered; after a restart it is copied once more and the
+// row goes) but it depends on timing, so the state lines of the live modes show pending rows only.
+func pendingRows(rows []int, dst map[int]bool) (pending []int, stale int) {
+	for _, i := range rows {
+		if _, at := dst[i]; at {
+			stale++
+		} else {
+			pending = append(pending, i)
+		}
+	}
+	return
+}
+
+func (e *Exec) liveDump() string {
+	v := e.Observe()
+	v.Rows, _ = pendingRows(v.Rows, v.Dst)
+	return v.String()
+}
